@@ -31,8 +31,26 @@ pub fn panic_msg(e: Box<dyn std::any::Any + Send>) -> String {
 
 /// add the files to a fresh parser (in the given order), dump the syntax stage, validate, dump
 pub fn impl_validate(files: &Files) -> Json {
+    impl_validate_after(files, None)
+}
+
+/// as `impl_validate`, but the parser first held `prev` (other contents under the same and other
+/// ids, validated once) before it was brought to `files` by replacing / removing / adding: what it
+/// reports must depend on its current contents only
+pub fn impl_validate_after(files: &Files, prev: Option<&Files>) -> Json {
     let r = catch_unwind(AssertUnwindSafe(|| {
         let mut p: Parser<String> = Parser::new();
+        if let Some(prev) = prev {
+            for (id, text) in prev {
+                p.add_content(id.clone(), text);
+            }
+            let _ = p.validate();
+            for (id, _) in prev {
+                if !files.iter().any(|(i, _)| i == id) {
+                    p.remove_content(id.clone());
+                }
+            }
+        }
         for (id, text) in files {
             p.add_content(id.clone(), text);
         }
@@ -232,6 +250,15 @@ pub fn validate_case(files: &Files) -> Vec<(&'static str, Json)> {
     vec![("op", Json::s("validate")), ("files", files_json(files)), ("impl", impl_validate(files))]
 }
 
+pub fn validate_case_after(files: &Files, prev: &Files) -> Vec<(&'static str, Json)> {
+    vec![
+        ("op", Json::s("validate")),
+        ("files", files_json(files)),
+        ("prev", files_json(prev)),
+        ("impl", impl_validate_after(files, Some(prev))),
+    ]
+}
+
 /// source text of a type of each of the 17 categories (given `CATEGORY_PRELUDE` and `category_defs`)
 pub const CATEGORY_TYPES: &[(&str, &str)] = &[
     ("primitive", "int"),
@@ -305,8 +332,42 @@ pub fn run(suite: &str, thorough: bool, seed: u64, shard: usize, nshards: usize,
                 let cfg = gen::DocCfg { docs: false, ..Default::default() };
                 let proj = gen::gen_project(&mut r, &cfg);
                 let style = if r.chance(1, 4) { LayoutStyle::Wild } else { LayoutStyle::Plain };
-                let files = render_project(&proj, style, &mut r);
-                em.case(s, validate_case(&files));
+                if r.chance(1, 4) {
+                    // the parser held other contents under the same ids before: another project,
+                    // or (mostly) THIS project before some of its items were renamed / moved to
+                    // another package / changed kind and one file was dropped — references that
+                    // resolved before must not resolve to what is no longer there
+                    if r.chance(1, 4) {
+                        let files = render_project(&proj, style, &mut r);
+                        let prev_proj = gen::gen_project(&mut r, &cfg);
+                        let prev = render_project(&prev_proj, LayoutStyle::Plain, &mut r);
+                        em.case(s, validate_case_after(&files, &prev));
+                    } else {
+                        let prev = render_project(&proj, LayoutStyle::Plain, &mut r);
+                        let mut now = proj.clone();
+                        for (_, d) in now.iter_mut() {
+                            match r.below(4) {
+                                0 => {
+                                    let kind = gen::gen_kind(&mut r);
+                                    let name = d.item.name.clone();
+                                    d.item = gen::gen_item(&mut r, &cfg, &gen::TypePool::default_pool(), kind, &name);
+                                }
+                                1 => d.item.name = format!("{}New", d.item.name),
+                                2 => d.package.push("moved".to_owned()),
+                                _ => {}
+                            }
+                        }
+                        if now.len() > 1 && r.chance(1, 3) {
+                            let k = r.below(now.len());
+                            now.remove(k);
+                        }
+                        let files = render_project(&now, style, &mut r);
+                        em.case(s, validate_case_after(&files, &prev));
+                    }
+                } else {
+                    let files = render_project(&proj, style, &mut r);
+                    em.case(s, validate_case(&files));
+                }
             }
         }
         // C07: exhaustive 17 categories x 4 directions x method oneway x interface oneway x position
@@ -810,7 +871,25 @@ pub fn run(suite: &str, thorough: bool, seed: u64, shard: usize, nshards: usize,
                 let rd = doc::render(&d);
                 let mut toks = rd.toks.clone();
                 let how;
-                match i % 5 {
+                match i % 6 {
+                    5 => {
+                        // a non-ASCII letter / digit / mark inside (or at either end of) a name: the
+                        // grammar's identifiers are ASCII only
+                        let named: Vec<&doc::Span> = rd.spans.iter().filter(|sp| sp.name_first <= sp.name_last).collect();
+                        let sp = *r.pick(&named);
+                        let k = r.range(sp.name_first, sp.name_last);
+                        if toks[k].text == "." {
+                            continue;
+                        }
+                        let extra = *r.pick(&['é', 'ß', '٣', 'ı', 'Ω', '字', 'ａ', '\u{0301}', '\u{200D}', 'ǅ', 'ⅷ', '_'.max('ª')]);
+                        let chars: Vec<char> = toks[k].text.chars().collect();
+                        let at = r.below(chars.len() + 1);
+                        let mut t: String = chars[..at].iter().collect();
+                        t.push(extra);
+                        t.extend(chars[at..].iter());
+                        toks[k].text = t;
+                        how = "non-ASCII character in a name";
+                    }
                     0 | 1 => {
                         // a keyword / reserved word in a name slot (any span's name token)
                         let named: Vec<&doc::Span> = rd.spans.iter().filter(|sp| sp.name_first <= sp.name_last && sp.what != "type").collect();
@@ -1220,7 +1299,17 @@ pub fn rerun(line: &str) -> Option<String> {
         ("suite", j.get("suite").cloned().unwrap_or(Json::s("replay"))),
     ];
     match op.as_str() {
-        "validate" => v.append(&mut validate_case(&files)),
+        "validate" => {
+            let prev: Option<Files> = j.get("prev").and_then(|p| p.as_arr()).map(|a| {
+                a.iter()
+                    .filter_map(|f| Some((f.get("id")?.as_str()?.to_owned(), f.get("text")?.as_str()?.to_owned())))
+                    .collect()
+            });
+            match prev {
+                Some(prev) => v.append(&mut validate_case_after(&files, &prev)),
+                None => v.append(&mut validate_case(&files)),
+            }
+        }
         "walk" => {
             let wp = matches!(j.get("positions"), Some(Json::Bool(true)));
             v.append(&mut walk_case(&files, wp))
